@@ -122,6 +122,10 @@ def stepSt (d : DSt) : List String → DSt × String
     match slot k with
     | some k => if d.live k then ({ d with live := upd d.live k false }, "ok") else (d, "skip")
     | none => (d, "bad-op")
+  | ["tjump", n] =>   -- n stamps are drawn (and dropped) by somebody else in the process
+    match n.toNat? with
+    | some n => ({ d with s := { d.s with counter := d.s.counter + n }, ss := { d.ss with counter := d.ss.counter + n } }, "ok")
+    | none => (d, "bad-op")
   | ["tval", k] =>
     match slot k with
     | some k => if d.live k then canon d (d.ss.stamp k) else (d, "skip")
